@@ -1,7 +1,76 @@
-(* C05 — property theorems only (see DESIGN.md); each closed by [exact] of a lemma proved in Zip/Proofs*.v. *)
-From Verif.Base Require Import Bytes PathClean.
-From Verif.Zip Require Import Check ProofsClass.
+(* C05 — A created module zip always extracts to exactly the files that belong in it.
+   Property theorems only; each is closed by [exact] of a lemma proved in Zip/Proofs*.v.
 
-Theorem C05_placeholder_same_lists_refl : forall a, same_lists a a.
-Proof. exact same_lists_refl. Qed.
-Print Assumptions C05_placeholder_same_lists_refl.
+   Vocabulary (Zip/Check.v, Zip/Create.v, Zip/ProofsZip.v):
+     create mp mv files = CrOk entries | CrErr class          zip.Create
+     check_files files                                        zip.CheckFiles (report)
+     valid_files files                                        the files behind report.Valid
+     cf_err report                                            CheckedFiles.Err() as a class
+     check_module mp mv = None                                module.Check accepts, version canonical
+     check_zip mp mv zipsize entries = (report, error class)  zip.CheckZip
+     entry_rest / entry_name / entry_is_dir / entry_items / file_entries: see Props/C12.v *)
+From Verif.Base Require Import Bytes PathClean.
+From Verif.Gen Require Import GenConsts.
+From Verif.Module Require Import Path.
+From Verif.Zip Require Import Check Create ProofsPath ProofsColl ProofsZip ProofsCreate ProofsCreateZip.
+
+(* Given a valid module path with a matching canonical version and valid files that can be
+   opened and whose content has the size they report, creation succeeds exactly when the file
+   check reports no error. *)
+Theorem C05_create_ok_iff_checkfiles_ok :
+  forall (mp mv : str) (files : list file),
+    check_module mp mv = None ->
+    Forall (fun f => f_open_ok f = true /\ len (f_content f) = f_size f) (valid_files files) ->
+    ((exists z, create mp mv files = CrOk z) <-> cf_err (check_files files) = None).
+Proof. exact create_ok_iff_checkfiles_ok. Qed.
+Print Assumptions C05_create_ok_iff_checkfiles_ok.
+
+(* without those assumptions one direction remains: Create never succeeds when the module is
+   rejected or the file check reports an error *)
+Theorem C05_create_ok_only_if :
+  forall (mp mv : str) (files : list file) (z : list entry),
+    create mp mv files = CrOk z -> check_module mp mv = None /\ cf_err (check_files files) = None.
+Proof. exact create_ok_only_if. Qed.
+Print Assumptions C05_create_ok_only_if.
+
+(* Whenever creation succeeds, the archive passes the zip check with no invalid entry and no
+   size error, and Valid lists every entry (zipsize, the size of the encoded archive file, is
+   outside the model and assumed to be within MaxZipFile: see checks/C05.json). *)
+Theorem C05_create_then_checkzip_ok :
+  forall (mp mv : str) (files : list file) (z : list entry) (zipsize : Z),
+    create mp mv files = CrOk z -> zipsize <= zip_MaxZipFile ->
+    check_zip mp mv zipsize z = (mkChecked (map e_name z) [] [] false false, None).
+Proof. exact create_then_checkzip_ok. Qed.
+Print Assumptions C05_create_then_checkzip_ok.
+
+(* Every produced archive obeys the documented restrictions: its entries are exactly the valid
+   files of the file check under the prefix "<mp>@<mv>/", in order, with the files' contents;
+   every entry is a file with a path accepted by module.CheckFilePath that is clean; registered
+   paths equal under case folding are the same directory (no two files fold-equal, no file
+   that is also a directory); a base name that folds to go.mod is "go.mod" at the root; go.mod
+   and LICENSE are within their limits and the total size within MaxZipFile. *)
+Theorem C05_created_zip_restrictions :
+  forall (mp mv : str) (files : list file) (z : list entry),
+    create mp mv files = CrOk z ->
+    let prefix := zip_prefix mp mv in
+    check_module mp mv = None /\
+    map e_name z = map (fun p => prefix ++ p) (c_valid (check_files files)) /\
+    map e_content z = map f_content (valid_files files) /\
+    Forall (fun e =>
+              has_prefix (e_name e) prefix = true /\
+              (entry_rest prefix e = [] \/
+               (let name := entry_name (entry_rest prefix e) in
+                check_file_path name = None /\ path_clean name = name /\
+                (entry_is_dir (entry_rest prefix e) = false ->
+                   (equal_fold (path_base name) go_mod = true -> name = go_mod) /\
+                   0 <= to_int64 (e_usize e) /\
+                   (name = go_mod -> to_int64 (e_usize e) <= zip_MaxGoMod) /\
+                   (name = B "LICENSE" -> to_int64 (e_usize e) <= zip_MaxLICENSE))))) z /\
+    ForallOrdPairs (fun a b : str * bool =>
+                      str_to_fold (fst a) = str_to_fold (fst b) ->
+                      fst a = fst b /\ snd a = true /\ snd b = true)
+                   (flat_map (entry_items prefix) z) /\
+    0 <= total_size (file_entries prefix z) <= zip_MaxZipFile /\
+    file_entries prefix z = z.
+Proof. exact created_zip_restrictions. Qed.
+Print Assumptions C05_created_zip_restrictions.
